@@ -289,7 +289,7 @@ SPEC = {
         # engine code shared between goroutines: the function table of builtinfunctions.GetFunctions() (parallel foreach items,
         # independent steps); per function 4 goroutines with fixed arguments
         {"name": "builtins-conc-race", "race": True,
-         "harness": lambda t, s: ["builtins-conc", "-n", "60" if t == "thorough" else "20", "-seed", str(s + 3), "-tier", t,
+         "harness": lambda t, s: ["builtins-conc", "-n", "90" if t == "thorough" else "30", "-seed", str(s + 3), "-tier", t,
                                   "-child", "self", "-g", "4", "-iters", "400"],
          "driver": None, "monitor": mon_c17_conc,
          "nontrivial": lambda c: c.get("kind") == "builtin-conc" and not c.get("skip") and not c.get("crash"),
